@@ -144,6 +144,7 @@ package env
 //@ requires [C13] unlocked: nolocks()
 //@ ensures found: foundV(e, symbol) ==> result.1 == nil && result.0 == lookupV(e, symbol)
 //@ ensures miss: !foundV(e, symbol) ==> result.1 != nil && result.0 == NilValue
+//@ ensures errfresh: result.1 == nil || fresh(payload(result.1))
 //@ use foundV-def(e, symbol)
 //@ use lookupV-def(e, symbol)
 //@ critical 0 snapshot: forall k string :: (has(e.values, k) <==> acq(has(e.values, k))) && e.values[k] == acq(e.values[k])
@@ -234,6 +235,7 @@ package env
 //@ requires [C13] unlocked: nolocks()
 //@ ensures found: foundT(e, symbol) ==> result.1 == nil && result.0 == lookupT(e, symbol)
 //@ ensures miss: !foundT(e, symbol) ==> result.1 != nil && result.0 == NilType
+//@ ensures errfresh: result.1 == nil || fresh(payload(result.1))
 //@ use foundT-def(e, symbol)
 //@ use lookupT-def(e, symbol)
 //@ critical 0 snapshot: forall k string :: (has(e.types, k) <==> acq(has(e.types, k))) && e.types[k] == acq(e.types[k])
@@ -258,6 +260,7 @@ package env
 //@ requires e != nil
 //@ requires [C13] unlocked: nolocks()
 //@ ensures empty: len(path) < 1 ==> result.0 == e && result.1 == nil
+//@ ensures errfresh: result.1 == nil || fresh(payload(result.1))
 //@ ensures oneof: result.1 == nil ==> result.0 != nil
 //@ loop 0 invariant e != nil && heldmap() == old(heldmap())
 //@ loop 1 invariant e != nil && heldmap() == old(heldmap()) && 1 <= i
